@@ -45,7 +45,13 @@ def gen(ctx):
     base = list(strings(ALPH, L))
     longs = [rand_str(rng, ALPH, rng.choice([6, 7, 8, 15, 16, 17, 63, 64, 65, 255, 256, 1000, rng.randrange(6, 3000)])) for _ in range(60 if q else 400)]
     longs += [b' ' * 50, b'\t\r\n ' * 20 + b'x' + b' \n' * 30, b' ' * 40 + b'a b' + b' ' * 40]
-    for s in base + longs:
+    # every byte value at both edges, alone, next to a blank and in the middle: only blank, tab, CR, LF may be stripped
+    # (not VT, FF, NBSP, 0x85 ... whatever a locale calls space)
+    edges = []
+    for b in range(1, 256):
+        x = bytes([b])
+        edges += [x, x + b'a', b'a' + x, x + b'a' + x, b' ' + x + b'a' + x + b'\t', x + b' a ' + x, b'a' + x + b'b', x + x]
+    for s in base + longs + edges:
         for op in ('trim', 'trimh', 'trimt', 'rev'):
             c.add('%s %s' % (op, hexs(s)), 'spec %s %s' % (op, hexs(s)))
     cs = [bytes([x]) for x in range(1, 256)] + list(strings(CASEALPH, 2 if q else 3)) + base[:2000] + longs[:40]
@@ -167,6 +173,15 @@ def gen(ctx):
             for off in (range(0, n + 1) if n <= 5 else sorted(set([0, 1, n, rng.randrange(0, n)]))):
                 c.add('tok %s %s %d' % (hexs(s), hexs(d), off), 'spec tok %s %s' % (hexs(d), hexs(s[off:])))
         c.add('tok %s %s %d' % (hexs(s), hexs(b','), n + 1), None, incontract=False)     # offset beyond the terminator
+    # a tokenisation abandoned after its first field must not influence a later one with other delimiters
+    # (the harness runs all operations in one process, so hidden static state would carry over)
+    for d1, d2 in ((b'=', b','), (b';', b','), (b',;', b' '), (b'\xff', b','), (b'a', b';')):
+        for s2 in (b'x=1,y=2,,z=3', b'a;b,c;d', b'k = v ; w', b'\xffa,b\xff', b'aXa;bXb'):
+            c.add('tok %s %s 0' % (hexs(b'k' + d1[:1] + b'v' + d1[:1]), hexs(d1)), 'spec tok %s %s' % (hexs(d1), hexs(b'k' + d1[:1] + b'v' + d1[:1])))
+            c.add('tokz %s %s' % (hexs(s2), hexs(d2)), 'spec tokz %s %s' % (hexs(s2), hexs(d2)))
+            for off in range(0, len(s2) + 1):
+                c.add('tok %s %s 0' % (hexs(b'k' + d1[:1] + b'v'), hexs(d1)), 'spec tok %s %s' % (hexs(d1), hexs(b'k' + d1[:1] + b'v')))
+                c.add('tok %s %s %d' % (hexs(s2), hexs(d2), off), 'spec tok %s %s' % (hexs(d2), hexs(s2[off:])))
     fam['tok'] = c
     # ---- qstr_comma_number (extra)
     c = Cases()
